@@ -260,8 +260,17 @@ pub fn run_worker<P: Prop>(args: &Args) -> WorkerOut {
             }
         }
         let mut obs = Obs::default();
-        let r = guarded(|| P::run(&case, &mut obs));
+        let mut r = guarded(|| P::run(&case, &mut obs));
         let mut s = st.borrow_mut();
+        // a case the harness could not decide (watchdog, spawn failure): never a violation
+        if let Err(m) = &r
+            && let Some(why) = m.strip_prefix("INCONCLUSIVE:")
+        {
+            if s.out.error.is_none() {
+                s.out.error = Some(why.trim().to_string());
+            }
+            r = Ok(());
+        }
         if !s.failed {
             s.out.evaluations += 1;
             for l in &obs.labels {
@@ -380,6 +389,10 @@ pub fn main_for<P: Prop>(rest: &[String]) -> i32 {
             Ok(Ok(())) => {
                 println!("replay {} passed", path.display());
                 0
+            }
+            Ok(Err(m)) if m.starts_with("INCONCLUSIVE:") => {
+                eprintln!("{m}");
+                2
             }
             Ok(Err(m)) => {
                 println!("replay failed: {m}");
